@@ -8,7 +8,7 @@ Local Open Scope Z_scope.
 
 Lemma div_ok_unclassified jcs facs : get_subsamp_l jcs facs = -1 -> div_ok jcs facs = true.
 Proof.
-  intros H. unfold div_ok. rewrite H.
+  intros H. unfold div_ok. cbv zeta. rewrite H.
   apply forallb_forall. intros g _. apply forallb_forall. intros op _. cbv zeta.
   destruct g.
   - assert (E : get_dst_subsamp (-1) true op = 3) by (destruct op; reflexivity). rewrite E.
@@ -130,7 +130,7 @@ Proof.
   pose proof (request_imcu_layout im _ p Hp) as Hi. cbn [tj_xopts xo_gray xo_op] in Hi.
   assert (Hdiv : div_ok (i_cs im) (layout_of im) = true).
   { apply div_ok_bounded; [exact Hcs|]. unfold layout_of. rewrite Forall_map. exact Hf. }
-  unfold div_ok in Hdiv. rewrite forallb_forall in Hdiv.
+  unfold div_ok in Hdiv. cbv zeta in Hdiv. rewrite forallb_forall in Hdiv.
   specialize (Hdiv (t_gray t) ltac:(destruct (t_gray t); cbn; tauto)). rewrite forallb_forall in Hdiv.
   specialize (Hdiv (t_op t) ltac:(destruct (t_op t); cbn; tauto)). cbv zeta in Hdiv.
   fold (get_subsamp im) in Hdiv. unfold get_subsamp in Hdiv. fold (layout_of im) in Hdiv. rewrite <- Hi in Hdiv. cbn [fst snd] in Hdiv.
